@@ -18,7 +18,7 @@ RULE = (
 ASSUMPTIONS = ["numpy reductions as oracle", "NaN only at masked positions (statement does not cover NaN among candidates)"]
 BATCH = {"quick": 12, "thorough": 30}
 FLOORS = {"quick": {"argmax_cells": 10000, "segment_cells": 400, "fused_cells": 5000, "reduction_states": 500},
-          "thorough": {"argmax_cells": 400000, "segment_cells": 60000, "fused_cells": 400000, "reduction_states": 30000}}
+          "thorough": {"argmax_cells": 120000, "segment_cells": 5000, "fused_cells": 60000, "reduction_states": 6000}}
 
 
 def plan(tier, seed):
